@@ -56,8 +56,8 @@ def _tier(tier):
                     java="-Xmx2g -XX:ParallelGCThreads=2")
     return dict(mc=[c % r for c in ("Sched_%s_thorough2.cfg", "Sched_%s_thorough.cfg", "Sched_%s_thorough3.cfg") for r in ROLES
                     if c % r != "Sched_sync_thorough2.cfg"] + ["Sched_att_spe6.cfg", "Sched_sync_spe6.cfg"],
-                big={}, workers=3, par=3, stop_after=1200, leaves=4000, extra_edges=4000, sim=(1200, 90), own_runs=1500,
-                java="-Xmx8g -XX:ParallelGCThreads=3")
+                big={}, workers=2, par=4, stop_after=540, leaves=1500, extra_edges=1500, sim=(600, 90), own_runs=600,
+                java="-Xmx8g -XX:ParallelGCThreads=2")
 
 
 def _killed(r):
